@@ -36,12 +36,12 @@ BOUNDS = {
     "thorough": {"history_len": 3, "starts": ["empty", "two"], "ops": OPS, "names": "'', 'A', 'B'", "task_budget_s": 3000, "max_paths": 1000000},
 }
 ASSUMPTIONS = [
-    "arrays are concrete 1-D float arrays of length 2 with distinct contents; 2-D arrays given to set_data are as wide as the curve list or one wider",
+    "arrays are concrete 1-D float arrays of length 2 with distinct contents; 2-D arrays given to set_data are as wide as the curve list or one or two columns wider",
     "names: '', 'A', 'B' (so existing / new / duplicate / blank names all occur); positions: every list position incl. negatives and both ends",
     "operations addressed by mnemonic use a session name that exists (taken from keys()) or, for item assignment, also a new name",
     "set_data_from_df / pandas are outside (not claimed)",
 ]
-WITNESS_TARGETS = ["duplicate-names-in-history", "negative-position", "set_data-wider-array", "set_data-truncate"]
+WITNESS_TARGETS = ["duplicate-names-in-history", "negative-position", "set_data-wider-array", "set_data-two-columns-wider", "set_data-truncate", "set_data-after-un-duplication"]
 EXCLUSIONS = {}
 
 
@@ -165,9 +165,12 @@ def harness(ns, params):
                     else:
                         model[present] = [nm, "u%d" % t, "v%d" % t, "d%d" % t, arr(t)]
                 elif op == "set_data":
+                    ext = fresh_int("x%d" % t, 0, 2)
+                    inputs.setdefault("extra", {})[str(t)] = ext
+                    A(z.Or(B(flg), z.eq_i(ext.e, 0)))  # flag off: as wide as the curve list
                     wider = bool(flg)
                     truncate = sel.__index__() == 1
-                    width = n + (1 if wider else 0)
+                    width = n + (max(1, ext.__index__()) if wider else 0)
                     if width == 0:
                         width = 1
                     data = np.array([[1000.0 * t + 10 * jj + r for jj in range(width)] for r in range(2)])
@@ -178,6 +181,7 @@ def harness(ns, params):
                     elif s == 3:
                         names = [nm] * width  # duplicates
                     core.witness("set_data-wider-array", width > n)
+                    core.witness("set_data-two-columns-wider", width >= n + 2 and n > 0)
                     core.witness("set_data-truncate", truncate)
                     las.set_data(data, names=None if names is None else list(names), truncate=truncate)
                     if truncate:
@@ -208,6 +212,12 @@ def harness(ns, params):
                     obl.append(("values-view@%d" % t, vs[i_] is cv.data))
                     obl.append(("items-view@%d" % t, its[i_][1] is cv.data and SymStr.lift(its[i_][0]).eq_expr(cv.mnemonic)))
                     obl.append(("int-indexing@%d" % t, las[i_] is cv.data))
+                    obl.append(("mnemonic-indexing@%d" % t, las[ks[i_]] is cv.data))
+                if op == "set_data" and data.size > 0:
+                    # set_data names every curve anew: the session names are those of a freshly named list
+                    want_keys = fresh_session_names([_conc_name(row[0]) for row in model])
+                    core.witness("set_data-after-un-duplication", z.And(z.Or([_has_colon(k) for k in keys_before]), not any(":" in k for k in want_keys)))
+                    obl.append(("session-names-after-set_data@%d" % t, z.And([SymStr.lift(ks[i_]).eq_expr(want_keys[i_]) for i_ in range(len(cur))])))
                 if cur:
                     obl.append(("index-view@%d" % t, las.index is cur[0].data))
                     d2 = las.data
@@ -219,6 +229,35 @@ def harness(ns, params):
         return {"observed": {"keys": las.keys(), "originals": [cv.original_mnemonic for cv in list.__iter__(las.curves)]}}
 
     return run
+
+
+def fresh_session_names(originals):
+    """session names of a freshly named list: blank -> UNKNOWN, names occurring more than once get :1..:n in order"""
+    useful = [n if n.strip() else "UNKNOWN" for n in originals]
+    out, seen = [], {}
+    for n in useful:
+        if useful.count(n) > 1:
+            seen[n] = seen.get(n, 0) + 1
+            out.append("%s:%d" % (n, seen[n]))
+        else:
+            out.append(n)
+    return out
+
+
+def _has_colon(k):
+    if isinstance(k, str):
+        return ":" in k
+    return z.Or([z.And(k.inlen(i), z.eq_c(k.chars[i], 58)) for i in range(k.cap)])
+
+
+def _conc_name(x):
+    """concrete value of a model name (forks over the name alphabet of this check)"""
+    if isinstance(x, str):
+        return x
+    for cand in ("", "A", "B"):
+        if x == cand:
+            return cand
+    raise core.OutOfBound("name outside '', 'A', 'B'")
 
 
 def _first_index(keys, key):
@@ -297,7 +336,8 @@ def replay(i):
                     model[pr] = [nm, u, v, d, arr(t)]
             elif op == "set_data":
                 wider, truncate = bool(flg), s == 1
-                width = n + (1 if wider else 0) or 1
+                ext = (i.get("extra") or {}).get(str(t), 1)
+                width = n + (max(1, ext) if wider else 0) or 1
                 data = np.array([[1000.0 * t + 10 * jj + r for jj in range(width)] for r in range(2)])
                 nlist = None
                 if s == 2:
@@ -324,6 +364,10 @@ def replay(i):
         if got != want:
             problems.append("step %d %s(name=%r,pos=%r,sel=%r,flag=%r): curves %r, list model %r" % (t, op, nm, p, s, flg, got, want))
             break
+        if op == "set_data" and data.size > 0 and las.keys() != fresh_session_names([r[0] for r in model]):
+            problems.append("step %d set_data(names=%r): session names %r, a freshly named list %r has %r" % (t, nlist, las.keys(), [r[0] for r in model], fresh_session_names([r[0] for r in model])))
+        if any(las[k_] is not cv.data for k_, cv in zip(las.keys(), cur)) if len(set(las.keys())) == len(cur) else False:
+            problems.append("step %d: mnemonic indexing disagrees with keys() %r" % (t, las.keys()))
         if las.keys() != [cv.mnemonic for cv in cur] or any(a is not cv.data for a, cv in zip(las.values(), cur)) or any(las[k_] is not cv.data for k_, cv in enumerate(cur)):
             problems.append("step %d: views disagree" % t)
         if cur and not (las.index is cur[0].data and las.data.shape == (2, len(cur)) and all(np.array_equal(las.data[:, k_], cv.data) for k_, cv in enumerate(cur))):
